@@ -45,6 +45,7 @@ ENDINGS = [
     ["select", [Cn("x")]],  # single column
     ["filter", [["eq", col("T", "k"), lit(1)]]],  # at most one row
     ["mutate", [["nn", lit(None)]]],  # null-only column
+    ["select", [Cn("s"), Cn("x"), Cn("g"), Cn("k")]],  # a pure permutation of all columns
 ]
 
 
